@@ -155,7 +155,8 @@ def observed_of(rec, widths_txt, err):
 
 def tree_phase(cfg, fixes, tolerate, stats, samples, d, tier):
     name = cfg[len("SyntaxGen"):-len(".cfg")]
-    g = tlc("SyntaxGen", cfg, env={"SYNTAX_FIXES": fixes}, workers=12, timeout=3000, xmx="16g", tag=f"c08g-{name}",
+    g = tlc("SyntaxGen", cfg, env={"SYNTAX_FIXES": fixes, "SYNTAX_SKIP_REGION": "1" if tolerate else "0"}, workers=12,
+            timeout=3000, xmx="16g", tag=f"c08g-{name}",
             coverage=(name == "Atoms" and tier == "thorough"))
     tlc_must_pass(g, f"SyntaxGen {cfg}")
     trees_path = os.path.join(d, f"trees-{name}.ndjson")
@@ -221,7 +222,7 @@ def tree_phase(cfg, fixes, tolerate, stats, samples, d, tier):
 
 
 def string_phase(cfg, fixes, tolerate, stats, samples, d):
-    g = tlc("SyntaxGen", cfg, env={"SYNTAX_FIXES": fixes}, workers=4, timeout=1500, tag="c08g-str")
+    g = tlc("SyntaxGen", cfg, env={"SYNTAX_FIXES": fixes, "SYNTAX_SKIP_REGION": "0"}, workers=4, timeout=1500, tag="c08g-str")
     tlc_must_pass(g, f"SyntaxGen {cfg}")
     p = os.path.join(d, "strs.ndjson")
     lines = list(gen_lines(g))
@@ -310,6 +311,23 @@ def witness_phase(findings, stats, d):
             log(f"note: the witness {k['witness']} of an open finding no longer fails; the entry can be closed")
 
 
+def self_test(trace, d):
+    """The judge must be able to say no: a passing line with one operator / one flag altered is rejected."""
+    line = nth_lines(trace, [1]).get(1)
+    if not line:
+        tool_failure("self test: empty trace")
+    rec = json.loads(line)
+    a = json.loads(line)
+    a["trips"][0]["err"] = True
+    b = json.loads(line)
+    b["trips"][0]["reparsed"] = {"k": "bin", "op": "+", "l": rec["orig"], "r": rec["orig"]}
+    p = os.path.join(d, "trace-selftest.ndjson")
+    write_ndjson(p, [rec, a, b])
+    bad, _, _ = judge(p, True, "selftest")
+    if sorted(l for _, l, _, _ in bad) != [2, 3]:
+        tool_failure(f"self test: SyntaxTrace.tla should reject exactly the two corrupted lines, rejected {bad}")
+
+
 def new_stats():
     return {"tlc_gen_states": 0, "tlc_gen_transitions": 0, "tlc_judge_states": 0, "trees": 0, "round_trips": 0, "cases": 0,
             "modules": 0, "model_failures": 0, "known_tolerated": 0, "modules_skipped_syntax_errors": 0,
@@ -330,14 +348,15 @@ def run(tier):
     fails = 0
     for cfg in TREE_CFGS[tier]:
         fails += tree_phase(cfg, fixes, tolerate, stats, samples, d, tier)
+    self_test(os.path.join(d, "trace-Atoms.ndjson"), d)
     fails += string_phase(STR_CFG[tier], fixes, tolerate, stats, samples, d)
     m = MODULES[tier]
     src = os.path.join(d, "src")
     _, f = module_phase("corpus", ["--corpus", "/repo/tests,/repo/std", "--comments", m["comments"], "--seed", SEED,
                                    "--srcdir", os.path.join(src, "comments")], tolerate, stats, d)
     fails += f
-    summary, f = module_phase("generated", ["--gen", m["gen"], "--seed", SEED, "--srcdir", os.path.join(src, "gen")],
-                              tolerate, stats, d)
+    summary, f = module_phase("generated", ["--gen", m["gen"], "--seed", SEED, "--srcdir", os.path.join(src, "gen")]
+                              + (["--avoid-assoc-region"] if tolerate else []), tolerate, stats, d)
     fails += f
     if summary["generated_samples"]:
         samples.append({"generated_module": summary["generated_samples"][0][:1200]})
